@@ -1761,6 +1761,14 @@ class GMod(G):
                 out.append(("let", "got%d_%s" % (rnd, name), ("recv", ("var", "ch_" + name))))
                 out.append(("print", ("interp", ["got ", ("var", "got%d_%s" % (rnd, name))])))
             self.blocking_modules = getattr(self, "blocking_modules", 0) + 1
+        if self.chance(20):
+            # the module reads fields whose names only native code gave to their class (Error's inner / backTrace): no
+            # module compiled earlier spells them, and collections may have run since the class was built
+            ev = "err_" + name
+            out.append(("try", [("raise", ("call", ("var", "Error"), [("str", "in " + name), ("call", ("var", "Error"), [("str", "cause " + name)])]))],
+                        [(ev, None, [("print", ("prop", ("prop", ("var", ev), "inner"), "message")),
+                                     ("print", ("prop", ("prop", ("var", ev), "inner"), "inner")),
+                                     ("print", ("bin", ">", ("call", ("prop", ("prop", ("var", ev), "backTrace"), "len"), []), ("num", 0.0)))])]))
         exports = {}
         priv = "priv%d" % idx
         out.append(("let", priv, ("num", float(self.i(1, 9) * 10))))
